@@ -31,11 +31,13 @@ package testutil
 //@     invariant [rep] linksDistinct(ec) && linksApart(ec)
 //@     invariant [done] forall k int :: { attachments[k] } 0 <= k && k <= rangeindex ==> linked(ec, attachments[k].Account, attachments[k].Pool)
 // (the scan loop is keyed by its position, not by the text of the list it ranges over)
+//@     invariant [keeps] forall a proto4.Account, i int :: { old(ec.attached[a][i]) } 0 <= i && i < old(len(ec.attached[a])) ==> i < len(ec.attached[a]) && ec.attached[a][i] == old(ec.attached[a][i])
 //@   loop "range *" #3
 //@     invariant [scan] !already ==> (forall i int :: { ec.attached[a.Account][i] } 0 <= i && i <= rangeindex ==> ec.attached[a.Account][i] != a.Pool)
 //@   ensures [rep] linksDistinct(ec) && linksApart(ec)
 //@   ensures [pools-exist] result == nil ==> (forall k int :: { attachments[k] } 0 <= k && k < len(attachments) ==> (attachments[k].Pool in ec.pools))
 //@   ensures [error-no-effect] result != nil ==> snapshot(ec.attached) == old(snapshot(ec.attached))
+//@   ensures [keeps] forall a proto4.Account, i int :: { old(ec.attached[a][i]) } 0 <= i && i < old(len(ec.attached[a])) ==> i < len(ec.attached[a]) && ec.attached[a][i] == old(ec.attached[a][i])
 //@   ensures [attached] result == nil ==> (forall k int :: { attachments[k] } 0 <= k && k < len(attachments) ==> linked(ec, attachments[k].Account, attachments[k].Pool))
 //
 // DetachPools: afterwards none of the detachments is linked (one removal suffices because links
@@ -45,10 +47,16 @@ package testutil
 //@   requires ec != nil && ec.attached != nil && linksDistinct(ec) && linksApart(ec)
 //@   loop "range detachments"
 //@     invariant [rep] linksDistinct(ec) && linksApart(ec)
-//@     invariant [done] forall k int :: { detachments[k] } 0 <= k && k <= rangeindex ==> !linked(ec, detachments[k].Account, detachments[k].Pool)
+//@     invariant [done] forall k int, i int :: { ec.attached[detachments[k].Account][i] } 0 <= k && k <= rangeindex && 0 <= i && i < len(ec.attached[detachments[k].Account]) ==> ec.attached[detachments[k].Account][i] != detachments[k].Pool
+//@     invariant [keeps-others] forall a proto4.Account, i int :: { old(ec.attached[a][i]) } 0 <= i && i < old(len(ec.attached[a]))
+//@         && (forall k int :: { detachments[k] } 0 <= k && k <= rangeindex ==> !(detachments[k].Account == a && detachments[k].Pool == old(ec.attached[a][i])))
+//@         ==> linked(ec, a, old(ec.attached[a][i]))
 //@   loop "range *" #2
 //@     invariant [scan] forall i int :: { links[i] } 0 <= i && i <= rangeindex ==> links[i] != d.Pool
 //@     invariant [same] links == ec.attached[d.Account]
 //@   ensures [rep] linksDistinct(ec) && linksApart(ec)
-//@   ensures [detached] forall k int :: { detachments[k] } 0 <= k && k < len(detachments) ==> !linked(ec, detachments[k].Account, detachments[k].Pool)
+//@   ensures [detached] forall k int, i int :: { ec.attached[detachments[k].Account][i] } 0 <= k && k < len(detachments) && 0 <= i && i < len(ec.attached[detachments[k].Account]) ==> ec.attached[detachments[k].Account][i] != detachments[k].Pool
+//@   ensures [keeps-others] forall a proto4.Account, i int :: { old(ec.attached[a][i]) } 0 <= i && i < old(len(ec.attached[a]))
+//@         && (forall k int :: { detachments[k] } 0 <= k && k < len(detachments) ==> !(detachments[k].Account == a && detachments[k].Pool == old(ec.attached[a][i])))
+//@         ==> linked(ec, a, old(ec.attached[a][i]))
 //@   ensures [no-error] result == nil
